@@ -1589,8 +1589,15 @@ func (a *align) Entropy(site int, removegaps bool) (float64, error) {
 		}
 	}
 
-	for _, v := range occur {
-		proba := float64(v) / float64(total)
+	// Characters are traversed in a fixed order: the sum of floating point
+	// terms depends on their order, and map iteration order changes between calls
+	keys := make([]int, 0, len(occur))
+	for k := range occur {
+		keys = append(keys, int(k))
+	}
+	sort.Ints(keys)
+	for _, k := range keys {
+		proba := float64(occur[uint8(k)]) / float64(total)
 		entropy -= proba * math.Log(proba)
 	}
 
